@@ -881,6 +881,8 @@ func randomCase(i int) caseT {
 	var frames []wsref.Frame
 	type span struct{ first, last int }
 	var msgs []span
+	maxLen := len(sentinel) // longest message of the sequence, on the wire and as delivered
+	broken := false
 	nm := 1 + rng.Intn(4)
 	for m := 0; m < nm; m++ {
 		if rng.Intn(3) == 0 {
@@ -913,6 +915,12 @@ func randomCase(i int) caseT {
 		}
 		fr := wsref.Fragment(wsref.Message{Type: typ, Payload: wp}, wsref.FragmentOpts{Cuts: cuts, Masked: masked, NextKey: key})
 		fr[0].Rsv1 = isComp
+		if len(p) > maxLen {
+			maxLen = len(p)
+		}
+		if len(wp) > maxLen {
+			maxLen = len(wp)
+		}
 		sp := span{first: len(frames)}
 		for fi := range fr {
 			if fi > 0 && rng.Intn(3) == 0 {
@@ -931,6 +939,7 @@ func randomCase(i int) caseT {
 	closed := false
 	if rng.Intn(2) == 0 {
 		// break it
+		broken = true
 		mut := rng.Intn(11)
 		at := rng.Intn(len(frames))
 		c.Note = fmt.Sprintf("mutation %d at %d", mut, at)
@@ -1046,6 +1055,18 @@ func randomCase(i int) caseT {
 	}
 	if !closed {
 		frames = append(frames, sentinelFrame(masked))
+	}
+	if lr := run.Rand("c13-random-limit", i); !broken && lr.Intn(3) == 0 {
+		// a message length limit that every message of the (valid) sequence meets exactly or with
+		// little room: control frames, between fragments or on their own, are not messages and
+		// must not be counted against it
+		c.Cfg.MsgLimit = maxLen + []int{0, 0, 1, 50}[lr.Intn(4)]
+		c.Note = fmt.Sprintf("message length limit %d (longest message %d)", c.Cfg.MsgLimit, maxLen)
+	}
+	if fr := run.Rand("c13-random-maxframe", i); fr.Intn(4) == 0 {
+		// the sender's frame payload size: it fragments data messages, never the pong or close
+		// frame the endpoint answers with
+		c.Cfg.MaxFrame = []int{1, 16, 100, 124, 125, 126}[fr.Intn(6)]
 	}
 	for _, f := range frames {
 		s := specOf(f)
